@@ -118,6 +118,9 @@ func runC04Net(o *opts) (*summary, error) {
 
 		// the real listener, fed with the same byte strings
 		rec := &recorder{}
+		if debug {
+			rec.slow = time.Millisecond // second pass: a slow application, shut down while events are still queued
+		}
 		q := make(chan os.Signal, 1)
 		ldone := make(chan struct{})
 		go func() { u.Listen(rec, q); close(ldone) }()
@@ -200,7 +203,16 @@ func runC04Net(o *opts) (*summary, error) {
 				}
 			}
 		}
-		time.Sleep(50 * time.Millisecond)
+		if !debug {
+			time.Sleep(50 * time.Millisecond)
+		} else {
+			// a burst of valid events, and the listener is shut down while most of them are still queued behind the
+			// slow application
+			for i := 0; i < 24; i++ {
+				evc.Write(content("valid-prefix", 64, uint32(1000+i), 0x20))
+			}
+			time.Sleep(3 * time.Millisecond)
+		}
 		evc.Close()
 		q <- os.Interrupt
 		select {
